@@ -1,4 +1,5 @@
 import FrappyProofs.Lemmas.KlassViews
+import FrappyProofs.Lemmas.KlassSession
 /-
 C09 — property theorems (nothing but property theorems and their non-vacuity examples).
 -/
@@ -736,5 +737,387 @@ example :
     ((describeH (run exT {} exOps2) (.cls "P")).map (fun nv => nv.2.bind (·.tree) |>.map shape)) =
       [some ("limits", [[("min", "-1000"), ("max", "1000")]])] := by
   refine ⟨?_, ?_, ?_⟩ <;> decide +kernel
+
+/-! ## around classes and instances: the loaded configuration, module properties from the class chain, input tables
+(`Klass/Session.lean`) -/
+
+/-- **config_isolated**: no operation — creating a module from a section, from this one or from one that shares a `Param`
+object with it, loading further sections, anything on classes and instances — changes what a loaded section shows. -/
+theorem config_isolated (T : STables) (s : Session) (op : SOp) (hb : CfgBounded s) : ConfigIsolated T s op :=
+  fun sec hsec => readSection_step T s op hb sec hsec
+
+/-- … for whole programs: after any sequence of operations a loaded section shows what it showed when it was loaded -/
+theorem config_isolated_run (T : STables) (ops : List SOp) (s : Session) (hb : CfgBounded s) (sec : Name)
+    (hsec : s.findSection sec ≠ none) : describeCfg (srun T s ops) sec = describeCfg s sec :=
+  readSection_run T ops s hb sec hsec
+
+/-- the invariant of `config_isolated` holds in every session reached from the empty one -/
+theorem cfgBounded_reachable (T : STables) (ops : List SOp) : CfgBounded (srun T {} ops) :=
+  cfgBounded_run T ops {} cfgBounded_empty
+
+/-- `Bounded` and `Separated` after an admissible run from any world that has them -/
+theorem invariants_run (T : Tables) (ops : List Op) (w : World) (hb : Bounded w) (hs : Separated w)
+    (hrun : AdmissibleRun T w ops) : Bounded (run T w ops) ∧ Separated (run T w ops) := by
+  have key : ∀ (ops : List Op) (w : World), InvRun T w ops → Bounded (run T w ops) ∧ Separated (run T w ops) := by
+    intro ops w h
+    induction h with
+    | nil w hb hs => exact ⟨hb, hs⟩
+    | cons w op ops _ _ _ ih => simpa [run] using ih
+  exact key ops w (invRun_of_admissible T ops w hb hs hrun)
+
+/-- **recreate_same** ("… or of instances created later", for the configuration): a module created from a loaded section
+after any admissible sequence of operations (other modules created from this section or from sections sharing `Param`
+objects with it, further sections loaded, other classes defined, other instances mutated, inputs registered) shows exactly
+what a module created from that section *now* shows — accessibles and module properties.  This is what a restart relies on:
+`Server._processCfg` creates all modules again from the same `srv.module_cfg`. -/
+theorem recreate_same (T : STables) (s : Session) (ops : List SOp) (i j c sec : Name)
+    (hb : Bounded s.world) (hs : Separated s.world) (hc : CfgBounded s) (hsec : s.findSection sec ≠ none)
+    (hrun : SAdmissibleRun T s ops) (hops : ∀ op ∈ worldOps T s ops, op.target ≠ .cls c)
+    (hi : s.world.findInst i = none) (hj : (srun T s ops).world.findInst j = none) :
+    describeH (sstep T (srun T s ops) (.create j c sec)).world (.inst j) =
+      describeH (sstep T s (.create i c sec)).world (.inst i) ∧
+    describeM (sstep T (srun T s ops) (.create j c sec)).world (.inst j) =
+      describeM (sstep T s (.create i c sec)).world (.inst i) := by
+  have hcfg : readSection (srun T s ops) sec = readSection s sec := readSection_run T ops s hc sec hsec
+  have hw := srun_world T ops s
+  have e1 : (sstep T (srun T s ops) (.create j c sec)).world =
+      instantiate T.base (run T.base s.world (worldOps T s ops)) j c (readSection s sec) := by
+    rw [sstep_world, stepWorld_some T _ _ (.inst j c (readSection (srun T s ops) sec)) rfl, hcfg, hw]
+    rfl
+  have e2 : (sstep T s (.create i c sec)).world = instantiate T.base s.world i c (readSection s sec) := by
+    rw [sstep_world, stepWorld_some T _ _ (.inst i c (readSection s sec)) rfl]
+    rfl
+  have hj' : (run T.base s.world (worldOps T s ops)).findInst j = none := by rw [← hw]; exact hj
+  have hinv := invariants_run T.base (worldOps T s ops) s.world hb hs hrun
+  have hH : describeH (instantiate T.base (run T.base s.world (worldOps T s ops)) j c (readSection s sec)) (.inst j) =
+      describeH (instantiate T.base s.world i c (readSection s sec)) (.inst i) := by
+    rw [describe_instantiate T.base _ j c _ hj', describe_instantiate T.base s.world i c _ hi,
+      class_description_stable T.base c _ s.world (invRun_of_admissible T.base _ s.world hb hs hrun) hops]
+  have hM : describeM (instantiate T.base (run T.base s.world (worldOps T s ops)) j c (readSection s sec)) (.inst j) =
+      describeM (instantiate T.base s.world i c (readSection s sec)) (.inst i) := by
+    rw [describeM_instantiate T.base _ j c _ hinv.1 hj', describeM_instantiate T.base s.world i c _ hb hi,
+      class_mprops_stable T.base c _ s.world hb hs hrun hops]
+  rw [e1, e2, hH, hM]
+  exact ⟨rfl, rfl⟩
+
+/-- **a module's description is a function of its own class chain and its own configuration only**, with the configuration
+as an object: a module created from section `sec` — whenever that happens after the section was loaded, whatever modules
+were created before from it or from sections sharing `Param` objects with it (`mid`), and whatever is done to other owners
+afterwards (`post`) — shows `instViews` of what `viewsOf env` says about its class and of the items the section had WHEN IT
+WAS LOADED. -/
+theorem module_description_function (T : STables) (env : Name → Option ClassDecl) (pre0 mid post : List SOp)
+    (sec n c : Name) (es : List (Name × EntrySpec)) (gs : List (PVal × List Name))
+    (hrun : SAdmissibleRun T {} ((pre0 ++ .load sec es gs :: mid) ++ .create n c sec :: post))
+    (hcons : ConsistentRun T.base env {} (worldOps T {} (pre0 ++ .load sec es gs :: mid)))
+    (cr : ClassRec) (hc : (srun T {} (pre0 ++ .load sec es gs :: mid)).world.findClass c = some cr)
+    (hpost : ∀ op ∈ worldOps T (srun T {} ((pre0 ++ .load sec es gs :: mid) ++ [.create n c sec])) post, op.target ≠ .inst n) :
+    ∃ V F, (∀ f, F ≤ f → viewsOf T.base env f c = some V) ∧
+      describeH (srun T {} ((pre0 ++ .load sec es gs :: mid) ++ .create n c sec :: post)).world (.inst n) =
+        (instViews T.base V.accessibles (describeCfg (srun T {} (pre0 ++ [.load sec es gs])) sec)).map
+          (fun nv => (nv.1, some nv.2)) := by
+  obtain ⟨hcfg, hw⟩ := create_after_load T pre0 mid post sec n c es gs
+  unfold SAdmissibleRun at hrun
+  rw [hw] at hrun
+  have hc' : (run T.base {} (worldOps T {} (pre0 ++ .load sec es gs :: mid))).findClass c = some cr := by
+    have e := srun_world T (pre0 ++ .load sec es gs :: mid) {}
+    rw [e] at hc
+    exact hc
+  obtain ⟨V, F, hF, hd⟩ := inst_description_function T.base env _ _ n c _ hrun hcons cr hc' hpost
+  refine ⟨V, F, hF, ?_⟩
+  have e2 := srun_world T ((pre0 ++ .load sec es gs :: mid) ++ .create n c sec :: post) {}
+  rw [e2, hw]
+  show describeH (run T.base {} _) (.inst n) = _
+  rw [hd, hcfg]
+
+/-- … and so is the module-level part: the module shows `instMSpec` of the value `HasProperties.__init_subclass__` computed
+for its class and of the items its section had when it was loaded — whatever happened to the section's `Param` objects'
+other users in between, and whatever is done afterwards (its own mutations included) -/
+theorem module_mprops_function (T : STables) (pre0 mid post : List SOp) (sec n c : Name) (es : List (Name × EntrySpec))
+    (gs : List (PVal × List Name))
+    (hrun : SAdmissibleRun T {} ((pre0 ++ .load sec es gs :: mid) ++ .create n c sec :: post))
+    (hwf : ∀ op ∈ worldOps T {} (pre0 ++ .load sec es gs :: mid), WellFormed op)
+    (cr : ClassRec) (hc : (srun T {} (pre0 ++ .load sec es gs :: mid)).world.findClass c = some cr) :
+    describeM (srun T {} ((pre0 ++ .load sec es gs :: mid) ++ .create n c sec :: post)).world (.inst n) =
+      instMSpec cr.pure.props (describeCfg (srun T {} (pre0 ++ [.load sec es gs])) sec) := by
+  obtain ⟨hcfg, hw⟩ := create_after_load T pre0 mid post sec n c es gs
+  unfold SAdmissibleRun at hrun
+  rw [hw] at hrun
+  have hc' : (run T.base {} (worldOps T {} (pre0 ++ .load sec es gs :: mid))).findClass c = some cr := by
+    have e := srun_world T (pre0 ++ .load sec es gs :: mid) {}
+    rw [e] at hc
+    exact hc
+  have hd := inst_mprops_function T.base _ _ n c _ hrun hwf cr hc'
+  have e2 := srun_world T ((pre0 ++ .load sec es gs :: mid) ++ .create n c sec :: post) {}
+  rw [e2, hw]
+  show describeM (run T.base {} _) (.inst n) = _
+  rw [hd, hcfg]
+
+/-- **features_function**: the module property `features` is a function of the class chain only — of the MRO of the class
+and of the direct bases of the classes along it — whatever else was defined -/
+theorem features_function (b1 b2 : List (Name × List Name)) (mro : List Name) (h : ∀ b ∈ mro, aget? b1 b = aget? b2 b) :
+    featuresOf b1 mro = featuresOf b2 mro := featuresOf_congr b1 b2 mro h
+
+/-- what `create` records for the new module: `features` and `interface_classes` computed from the MRO of its class as it
+is at that moment (nothing is cached on a class) -/
+theorem create_auto (T : STables) (s : Session) (i c sec : Name) :
+    (sstep T s (.create i c sec)).autos =
+      s.autos ++ [⟨i, sec, featuresOf s.bases (mroOf s.world c), interfaceOf T (mroOf s.world c)⟩] := rfl
+
+/-- one admissible operation changes neither the MRO of an existing class nor the bases on record along it -/
+theorem features_step (T : STables) (s : Session) (op : SOp) (c : Name)
+    (hadm : ∀ o, op.worldOp s = some o → Admissible s.world o) (hc : s.world.findClass c ≠ none) (hk : BasesKnown s c) :
+    mroOf (sstep T s op).world c = mroOf s.world c ∧ (sstep T s op).world.findClass c ≠ none ∧
+    BasesKnown (sstep T s op) c ∧ ∀ b ∈ mroOf s.world c, aget? (sstep T s op).bases b = aget? s.bases b := by
+  have hfc : (sstep T s op).world.findClass c = s.world.findClass c := by
+    rw [sstep_world]
+    cases hw : op.worldOp s with
+    | none => rw [stepWorld_none T s op hw]
+    | some o => rw [stepWorld_some T s op o hw]; exact findClass_persist T.base s.world o (hadm o hw) c hc
+  have hmro : mroOf (sstep T s op).world c = mroOf s.world c := by simp only [mroOf, hfc]
+  have hbases : ∀ b ∈ mroOf s.world c, aget? (sstep T s op).bases b = aget? s.bases b ∧ ahas (sstep T s op).bases b = true := by
+    intro b hb
+    have hkb := hk b hb
+    cases op with
+    | define d bs => exact ⟨aget?_append_known _ _ _ hkb, ahas_append_left _ _ _ hkb⟩
+    | load n es gs => exact ⟨rfl, hkb⟩
+    | create i c' sec => exact ⟨rfl, hkb⟩
+    | setprop i p pa k v => exact ⟨rfl, hkb⟩
+    | addEnum i p m => exact ⟨rfl, hkb⟩
+    | register i m => exact ⟨rfl, hkb⟩
+    | registerFailed i m => exact ⟨rfl, hkb⟩
+  refine ⟨hmro, by rw [hfc]; exact hc, ?_, fun b hb => (hbases b hb).1⟩
+  intro b hb
+  rw [hmro] at hb
+  exact (hbases b hb).2
+
+/-- **later_instances_same_features** (creation-order independence of the properties computed from the class chain):
+after any admissible sequence of operations — modules of base classes, of subclasses, of unrelated classes created, classes
+defined — a module of class `c` gets the `features` and `interface_classes` a module of `c` created now gets. -/
+theorem later_instances_same_features (T : STables) (ops : List SOp) (s : Session) (c : Name) (hrun : SAdmissibleRun T s ops)
+    (hc : s.world.findClass c ≠ none) (hk : BasesKnown s c) :
+    featuresOf (srun T s ops).bases (mroOf (srun T s ops).world c) = featuresOf s.bases (mroOf s.world c) ∧
+    interfaceOf T (mroOf (srun T s ops).world c) = interfaceOf T (mroOf s.world c) := by
+  induction ops generalizing s with
+  | nil => exact ⟨rfl, rfl⟩
+  | cons op ops ih =>
+    obtain ⟨hadm, hrest⟩ := sadmissible_cons T s op ops hrun
+    obtain ⟨hmro, hc', hk', hb⟩ := features_step T s op c hadm hc hk
+    obtain ⟨h1, h2⟩ := ih (sstep T s op) hrest hc' hk'
+    rw [srun_cons, h1, h2, hmro]
+    exact ⟨features_function _ _ _ hb, rfl⟩
+
+/-- **control_isolated**: an operation that is not a registration with module `j` leaves the table of input callbacks of
+`j` as it is — in particular `register_input` on another module (of the same class, of a sibling class: the table is the
+module's own) -/
+theorem control_isolated (T : STables) (s : Session) (op : SOp) (j : Name) (h : op.registersOn j = false) :
+    inputsOf (sstep T s op) j = inputsOf s j := by
+  cases op with
+  | register i m =>
+    have hij : i ≠ j := by simpa [SOp.registersOn] using h
+    exact inputsOf_enterInput_ne s i j m hij
+  | registerFailed i m =>
+    have hij : i ≠ j := by simpa [SOp.registersOn] using h
+    exact inputsOf_enterInput_ne s i j m hij
+  | load n es gs => rfl
+  | define d bs => rfl
+  | create i c sec => rfl
+  | setprop i p pa k v => rfl
+  | addEnum i p m => rfl
+
+theorem control_isolated_run (T : STables) (ops : List SOp) (s : Session) (j : Name)
+    (h : ∀ op ∈ ops, op.registersOn j = false) : inputsOf (srun T s ops) j = inputsOf s j := by
+  induction ops generalizing s with
+  | nil => rfl
+  | cons op ops ih =>
+    rw [srun_cons, ih _ (fun o ho => h o (List.mem_cons_of_mem _ ho)), control_isolated T s op j (h op List.mem_cons_self)]
+
+/-- **inputs_only_by_own_registration** ("… or of instances created later"): whatever a program does, a module that no
+operation registered an input with has an empty table — registrations with other modules, before or after it was created,
+do not show in it -/
+theorem inputs_only_by_own_registration (T : STables) (ops : List SOp) (j : Name)
+    (h : ∀ op ∈ ops, op.registersOn j = false) : inputsOf (srun T {} ops) j = [] :=
+  control_isolated_run T ops {} j h
+
+/-- … and so is the behaviour: the callbacks `self_controlled()` of module `j` calls are not changed by an operation that
+neither registers an input with `j` nor creates `j` -/
+theorem control_calls_isolated (T : STables) (s : Session) (op : SOp) (j : Name) (vals : List Int) (v : Int)
+    (h : op.registersOn j = false) (hc : op.creates j = false) :
+    selfControlledCalls (sstep T s op) j vals v = selfControlledCalls s j vals v := by
+  simp only [selfControlledCalls, control_isolated T s op j h, findAuto_step_ne T s op j hc]
+
+/-- a registration enters the name in the table of the module it is made with -/
+theorem register_own (T : STables) (s : Session) (i m : Name) :
+    inputsOf (sstep T s (.register i m)) i = addKey (inputsOf s i) m := by
+  simp only [sstep, inputsOf, enterInput, aget?_aput_self, Option.getD_some]
+
+
+/-! ### non-vacuity: a session with a Feature class, a control mixin, a shared `Param` object and a restart -/
+
+def exT2 : Tables := { exT with paramProps := exT.paramProps ++ [("constant", "null"), ("group", "\"\"")] }
+def exST : STables := ⟨exT2, ["Readable", "Writable", "Drivable", "Communicator"]⟩
+
+def dFeature : ClassDecl := ⟨"Feature", ["Feature"], true, []⟩
+def dF : ClassDecl := ⟨"F", ["F", "Feature"], true, [("q", .param (some "\"d\"") (some (.node "double" [] [] [])) [] true)]⟩
+def dBF : ClassDecl := ⟨"BF", ["BF", "F", "Feature", "B", "A"], true, []⟩
+def dH : ClassDecl := ⟨"H", ["H", "HasControlledBy", "A"], true,
+  [("controlled_by", .param (some "\"s\"") (some (.node "enum" [] [] [("self", 0)])) [] true)]⟩
+
+/-- classes (a feature `F`, `BF` using it, `H` with `controlled_by`), and a configuration in which the sections `m1` and
+`m2` are given one `Param` object (`calibrated = Param(constant=2, max=3)` used for both); `m2` puts it into a `Group` -/
+def exPre : List SOp :=
+  [.define dFeature [], .define dA [], .define dB ["A"], .define dF ["Feature"], .define dBF ["F", "B"],
+   .define dH ["HasControlledBy", "A"],
+   .load "m1" [("p", .new [("constant", "2"), ("max", "3")])] [],
+   .load "m2" [("p", .shared "m1" "p")] [("\"grp\"", ["p"])], .load "h1" [] [], .load "h2" [] []]
+
+/-- the modules are created, inputs are registered with one of the two `H` modules -/
+def exPost : List SOp :=
+  [.create "m1" "B" "m1", .create "m2" "BF" "m2", .create "h1" "H" "h1", .create "h2" "H" "h2",
+   .register "h1" "loop1", .register "h1" "loop2"]
+
+def exS0 : Session := srun exST {} exPre
+
+theorem exPre_admissible : SAdmissibleRun exST {} exPre := by
+  unfold SAdmissibleRun
+  refine ⟨rfl, ?_, ?_, ?_, ?_, ?_, trivial⟩ <;> exact Option.isNone_iff_eq_none.1 (by decide +kernel)
+
+theorem exPost_admissible : SAdmissibleRun exST exS0 exPost := by
+  unfold SAdmissibleRun
+  refine ⟨?_, ?_, ?_, ?_, trivial, trivial, trivial⟩ <;> exact Option.isNone_iff_eq_none.1 (by decide +kernel)
+
+/-- the hypotheses of `config_isolated` / `config_isolated_run` hold in the example; the section `m2` shows the items of
+the `Param` object it was given plus its group, `m1` shows the object without — still after both modules were created -/
+example : CfgBounded exS0 ∧ exS0.findSection "m2" ≠ none ∧
+    describeCfg (srun exST exS0 exPost) "m2" = [("p", [("constant", "2"), ("max", "3"), ("group", "\"grp\"")])] ∧
+    describeCfg (srun exST exS0 exPost) "m1" = [("p", [("constant", "2"), ("max", "3")])] := by
+  refine ⟨cfgBounded_reachable exST exPre, ?_, ?_, ?_⟩
+  · intro h
+    have : (exS0.findSection "m2").isSome = true := by decide +kernel
+    rw [h] at this
+    cases this
+  · decide +kernel
+  · decide +kernel
+
+theorem exS0_invariants : Bounded exS0.world ∧ Separated exS0.world := by
+  have h := invariants_run exT2 (worldOps exST {} exPre) {} empty_world_ok.1 empty_world_ok.2 exPre_admissible
+  have e : exS0.world = run exT2 {} (worldOps exST {} exPre) := srun_world exST exPre {}
+  rw [e]
+  exact h
+
+/-- **recreate_same** applied: the restart.  `m1r` created from section `m1` after everything else (`m1` itself, `m2` from
+the section sharing the `Param` object, the `H` modules, the registrations) shows what `m1` showed — the constant and the
+narrowed limit included -/
+example :
+    describeH (sstep exST (srun exST exS0 exPost) (.create "m1r" "B" "m1")).world (.inst "m1r") =
+      describeH (sstep exST exS0 (.create "m1" "B" "m1")).world (.inst "m1") ∧
+    ((describeH (sstep exST exS0 (.create "m1" "B" "m1")).world (.inst "m1")).map (fun nv => nv.2.map (·.props))) =
+      [some [("description", "\"d\""), ("export", "\"_p\""), ("constant", "2"), ("readonly", "true")]] := by
+  constructor
+  · refine (recreate_same exST exS0 exPost "m1" "m1r" "B" "m1" exS0_invariants.1 exS0_invariants.2
+      (cfgBounded_reachable exST exPre) ?_ exPost_admissible ?_ ?_ ?_).1
+    · intro h
+      have : (exS0.findSection "m1").isSome = true := by decide +kernel
+      rw [h] at this
+      cases this
+    · intro op hop
+      have : ∀ op ∈ worldOps exST exS0 exPost, (match op.target with | .cls _ => false | .inst _ => true) = true := by
+        intro op hop
+        simp only [worldOps, exPost, SOp.worldOp, Option.toList_some, List.singleton_append, List.append_nil, List.mem_cons,
+          List.not_mem_nil, or_false] at hop
+        rcases hop with h | h | h | h | h | h <;> subst h <;> rfl
+      intro heq
+      have := this op hop
+      rw [heq] at this
+      cases this
+    · exact Option.isNone_iff_eq_none.1 (by decide +kernel)
+    · exact Option.isNone_iff_eq_none.1 (by decide +kernel)
+  · decide +kernel
+
+/-- **module_description_function** applied.  Two classes; the section `m1` is loaded; then `m2` is loaded with the same
+`Param` object (put into a group there) and a module is created from it; only then the module `m1` is created; afterwards
+`m2` is mutated.  All hypotheses hold, and `m1` shows the class description with the items of its section as loaded. -/
+def exMdPre0 : List SOp := [.define dA [], .define dB ["A"]]
+def exMdMid : List SOp := [.load "m2" [("p", .shared "m1" "p")] [("\"grp\"", ["p"])], .create "m2" "B" "m2"]
+def exMdPost : List SOp := [.setprop "m2" "p" [] "max" "1"]
+
+theorem ne_none_of_isSome {α : Type} {o : Option α} (h : o.isSome = true) : o ≠ none := by
+  intro e
+  rw [e] at h
+  cases h
+
+example :
+    SAdmissibleRun exST {} ((exMdPre0 ++ .load "m1" [("p", .new [("max", "3")])] [] :: exMdMid) ++ .create "m1" "B" "m1" :: exMdPost) ∧
+    ConsistentRun exT2 exEnv {} (worldOps exST {} (exMdPre0 ++ .load "m1" [("p", .new [("max", "3")])] [] :: exMdMid)) ∧
+    ((srun exST {} (exMdPre0 ++ .load "m1" [("p", .new [("max", "3")])] [] :: exMdMid)).world.findClass "B").isSome = true ∧
+    (∀ op ∈ worldOps exST (srun exST {} ((exMdPre0 ++ .load "m1" [("p", .new [("max", "3")])] [] :: exMdMid) ++
+        [.create "m1" "B" "m1"])) exMdPost, op.target ≠ .inst "m1") ∧
+    describeCfg (srun exST {} (exMdPre0 ++ [.load "m1" [("p", .new [("max", "3")])] []])) "m1" = [("p", [("max", "3")])] ∧
+    ((describeH (srun exST {} ((exMdPre0 ++ .load "m1" [("p", .new [("max", "3")])] [] :: exMdMid) ++
+        .create "m1" "B" "m1" :: exMdPost)).world (.inst "m1")).map (fun nv => nv.2.bind (·.tree) |>.map (·.props))) =
+      [some [("max", "3")]] ∧
+    ((describeH (srun exST {} ((exMdPre0 ++ .load "m1" [("p", .new [("max", "3")])] [] :: exMdMid) ++
+        .create "m1" "B" "m1" :: exMdPost)).world (.inst "m2")).map (fun nv => nv.2.map (fun v => (v.props.get? "group", v.tree.map (·.props))))) =
+      [some (some "\"grp\"", some [("max", "1")])] := by
+  refine ⟨?_, ?_, by decide +kernel, ?_, by decide +kernel, by decide +kernel, by decide +kernel⟩
+  · unfold SAdmissibleRun
+    refine ⟨rfl, ?_, ?_, ?_, trivial, trivial⟩ <;> exact Option.isNone_iff_eq_none.1 (by decide +kernel)
+  · refine ⟨⟨by simp [exEnv, dA], fun m hm => ?_⟩, ⟨by simp [exEnv, dB], fun m hm => ?_⟩, trivial, trivial⟩
+    · simp [dA] at hm
+    · simp only [dB, List.tail_cons, List.mem_singleton] at hm
+      subst hm
+      intro _
+      exact ne_none_of_isSome (by decide +kernel)
+  · intro op hop
+    simp only [worldOps, exMdPost, SOp.worldOp, Option.toList_some, List.singleton_append, List.mem_cons, List.not_mem_nil,
+      or_false] at hop
+    subst hop
+    intro h
+    simp [Op.target] at h
+
+/-- the additional hypothesis of `module_mprops_function` (class bodies are dicts) holds in the same example, and the module
+shows the module properties of its class (none declared here: the empty list, as `instMSpec` says) -/
+example : (∀ op ∈ worldOps exST {} (exMdPre0 ++ .load "m1" [("p", .new [("max", "3")])] [] :: exMdMid), WellFormed op) ∧
+    describeM (srun exST {} ((exMdPre0 ++ .load "m1" [("p", .new [("max", "3")])] [] :: exMdMid) ++
+      .create "m1" "B" "m1" :: exMdPost)).world (.inst "m1") = [] := by
+  constructor
+  · intro op hop
+    simp only [worldOps, exMdPre0, exMdMid, SOp.worldOp, Option.toList_some, Option.toList_none,
+      List.cons_append, List.nil_append, List.append_nil, List.mem_cons, List.not_mem_nil, or_false] at hop
+    rcases hop with h | h | h <;> subst h
+    · simp [WellFormed, KeysNodup, dA]
+    · simp [WellFormed, KeysNodup, dB]
+    · trivial
+  · decide +kernel
+
+/-- **later_instances_same_features** applied: `BF` has the feature `F` whatever was created before (a module of its base
+class `B` first, or not); its hypotheses hold in `exS0` -/
+example : exS0.world.findClass "BF" ≠ none ∧ BasesKnown exS0 "BF" ∧
+    featuresOf exS0.bases (mroOf exS0.world "BF") = ["F"] ∧
+    featuresOf (srun exST exS0 exPost).bases (mroOf (srun exST exS0 exPost).world "BF") = ["F"] ∧
+    (srun exST exS0 exPost).autos.map (fun a => (a.inst, a.features)) = [("m1", []), ("m2", ["F"]), ("h1", []), ("h2", [])] := by
+  refine ⟨?_, ?_, ?_, ?_, ?_⟩
+  · intro h
+    have : (exS0.world.findClass "BF").isSome = true := by decide +kernel
+    rw [h] at this
+    cases this
+  · intro b hb
+    have hm : mroOf exS0.world "BF" = ["BF", "F", "Feature", "B", "A"] := by decide +kernel
+    rw [hm] at hb
+    simp only [List.mem_cons, List.not_mem_nil, or_false] at hb
+    rcases hb with h | h | h | h | h <;> subst h <;> decide +kernel
+  · decide +kernel
+  · decide +kernel
+  · decide +kernel
+
+/-- **control_isolated** / **inputs_only_by_own_registration** / **control_calls_isolated** in the example: the inputs
+registered with `h1` are in the table of `h1` only; `h2` (same class) has none, and `self_controlled()` of `h1` under control
+of `loop1` calls the two callbacks of `h1` -/
+example : inputsOf (srun exST exS0 exPost) "h1" = ["loop1", "loop2"] ∧ inputsOf (srun exST exS0 exPost) "h2" = [] ∧
+    (∀ op ∈ exPre ++ exPost, op.registersOn "h2" = false) ∧
+    controlMembers (srun exST exS0 exPost) "h1" = some [("self", 0), ("loop1", 1), ("loop2", 2)] ∧
+    controlMembers (srun exST exS0 exPost) "h2" = some [("self", 0)] ∧
+    selfControlledCalls (srun exST exS0 exPost) "h1" [0, 1, 2] 1 = [("h1", "loop1", "h1"), ("h1", "loop2", "h1")] ∧
+    selfControlledCalls (srun exST exS0 exPost) "h2" [0] 0 = [] := by
+  refine ⟨?_, ?_, ?_, ?_, ?_, ?_, ?_⟩ <;> decide +kernel
 
 end Frappy.Props.C09
